@@ -1,0 +1,104 @@
+//go:build verif
+
+package s2
+
+// Hooks for the verification work package c07 (build tag "verif" only, no behaviour).
+
+// VerifLoopCompareBoundary exposes Loop.compareBoundary.
+func VerifLoopCompareBoundary(a, b *Loop) int { return a.compareBoundary(b) }
+
+// VerifLoopContainsNonCrossingBoundary exposes Loop.containsNonCrossingBoundary.
+func VerifLoopContainsNonCrossingBoundary(a, b *Loop, reverse bool) bool {
+	return a.containsNonCrossingBoundary(b, reverse)
+}
+
+// VerifPolygonCompareBoundary exposes Polygon.compareBoundary.
+func VerifPolygonCompareBoundary(p *Polygon, o *Loop) int { return p.compareBoundary(o) }
+
+// VerifLoopOriginInside exposes Loop.originInside.
+func VerifLoopOriginInside(l *Loop) bool { return l.originInside }
+
+// VerifLoopFindVertex exposes Loop.findVertex.
+func VerifLoopFindVertex(l *Loop, p Point) (int, bool) { return l.findVertex(p) }
+
+// VerifRelationWalkStats replays, WITHOUT any crossing test and without early exit, the
+// parallel walk that hasCrossingRelation performs over the two loop indexes, and
+// counts which branches the walk visits (an upper bound of what a real relation
+// call visits, since the real walk can stop at the first crossing):
+//
+//	aCells, bCells   number of index cells of each loop
+//	aFree, bFree     index cells without edges (interior cells) of each loop
+//	edgeFree         visits of the branch "larger cell has no edges" of
+//	                 loopCrosser.hasCrossingRelation (either side)
+//	subcell          visits of hasCrossing that would call cellCrossesAnySubcell
+//	                 (>= edgeQueryMinEdges edges of the other loop below the cell)
+//	direct           visits of hasCrossing that test the edges directly
+//	same             visits of the equal-cell branch
+func VerifRelationWalkStats(a, b *Loop) (aCells, bCells, aFree, bFree, edgeFree, subcell, direct, same int) {
+	count := func(l *Loop) (cells, free int) {
+		it := l.index.Iterator()
+		for ; !it.Done(); it.Next() {
+			cells++
+			if it.IndexCell().shapes[0].numEdges() == 0 {
+				free++
+			}
+		}
+		return
+	}
+	aCells, aFree = count(a)
+	bCells, bFree = count(b)
+
+	ai := newRangeIterator(a.index)
+	bi := newRangeIterator(b.index)
+	// walk(x, y): x's cell is strictly larger than y's cell.
+	walk := func(xi, yi *rangeIterator) {
+		xClipped := xi.it.IndexCell().shapes[0]
+		if xClipped.numEdges() != 0 {
+			total := 0
+			query := false
+			for {
+				if n := yi.it.IndexCell().shapes[0].numEdges(); n > 0 {
+					total += n
+					if total >= 20 {
+						query = true
+						yi.seekBeyond(xi)
+						break
+					}
+				}
+				yi.next()
+				if yi.cellID() > xi.rangeMax {
+					break
+				}
+			}
+			if query {
+				subcell++
+			} else {
+				direct++
+			}
+			xi.next()
+			return
+		}
+		edgeFree++
+		yi.seekBeyond(xi)
+		xi.next()
+	}
+	for !ai.done() || !bi.done() {
+		if ai.rangeMax < bi.rangeMin {
+			ai.seekTo(bi)
+		} else if bi.rangeMax < ai.rangeMin {
+			bi.seekTo(ai)
+		} else {
+			rel := int64(ai.it.CellID().lsb() - bi.it.CellID().lsb())
+			if rel > 0 {
+				walk(ai, bi)
+			} else if rel < 0 {
+				walk(bi, ai)
+			} else {
+				same++
+				ai.next()
+				bi.next()
+			}
+		}
+	}
+	return
+}
